@@ -8,7 +8,7 @@ UNITS = []
 UNDERLIES = {
     # the per-thread pipeline in the backend: read, decode, admit, select, process, write
     'BW.read_decode[bounded]': {'C06', 'C07'}, 'BW.read_decode[unbounded]': {'C06', 'C07'}, 'BW.read_unbounded': {'C06', 'C07'}, 'BW.populate': {'C06', 'C07'}, 'BW.populate_all': {'C06', 'C07'},
-    'BW.process_lowest': {'C07'}, 'BW.process_event': {'C07'}, 'BW.write_stmt': {'C06', 'C07'}, 'BW.poll': {'C07'},
+    'BW.process_lowest': {'C06', 'C07'}, 'BW.process_event': {'C07'}, 'BW.write_stmt': {'C06', 'C07'}, 'BW.poll': {'C07'},
     # the sink end of "written and flushed"
     'BW.flush_sinks': {'C07'}, 'BW.collect_sinks': {'C07'}, 'SS.write_log': {'C07'}, 'SS.flush_sink': {'C07'}, 'FS.flush_sink': {'C07'},
     # the record header: what the frontend writes is what the backend reads (a statement attributed to the wrong logger / metadata is not 'delivered once')
@@ -17,6 +17,18 @@ UNDERLIES = {
     'PF.format': {'C13'},
     # the frontend end: what a completed log call has put into the queue
     'LG.log_statement': {'C03', 'C06', 'C07'},
+    # ordering machinery: a flush request is ordered like any statement (C06: "every statement ... whose log call completed before"), and
+    # the exit drain processes in the same order (C07).  Seed r6a-3: the batch loop ran past a partly read bounded queue and completed
+    # another thread's flush early - BW.has_pending failed, the C06 check stayed green until this attribution existed.
+    'BW.has_pending': {'C06', 'C07'}, 'BW.batch[_poll]': {'C06', 'C07'}, 'BW.batch[_exit]': {'C07'}, 'LEM.order': {'C06'},
+    # emptiness answers feed the ordering decision (seed r6c-2: UnboundedSPSCQueue::empty() ignoring the next buffer reorders output)
+    'BQ.empty': {'C05', 'C06'}, 'UQ.empty': {'C05', 'C06'},
+    # nothing pending is discarded: the reclaim predicate, the context cache and the backend buffer underlie "flush returns only after
+    # earlier statements are written" and "stop loses nothing ... including statements of threads that already exited" (seed r6d-1)
+    'BW.cleanup_pred': {'C06', 'C07'}, 'BW.update_cache_lambda': {'C06', 'C07'}, 'BW.update_cache': {'C06', 'C07'}, 'TCM.register': {'C06', 'C07'}, 'TCM.remove': {'C06', 'C07'},
+    'LEM.pipeline': {'C06', 'C07'}, 'BW.queues_empty': {'C06'},
+    'TEB.front': {'C06', 'C07'}, 'TEB.pop_front': {'C06', 'C07'}, 'TEB.back': {'C06', 'C07'}, 'TEB.push_back': {'C06', 'C07'}, 'TEB.expand': {'C06', 'C07'},
+    'TEB.empty': {'C05', 'C06', 'C07'}, 'TEB.size': {'C05', 'C06', 'C07'}, 'TEB.try_shrink': {'C06', 'C07'},
 }
 
 
